@@ -535,8 +535,8 @@ func (w *Wallet) Receive(token cashu.Token, swapToTrusted bool) (uint64, error) 
 	}
 
 	// verify DLEQ in proofs if present
-	if !nut12.VerifyProofsDLEQ(proofsToSwap, *keyset) {
-		return 0, errors.New("invalid DLEQ proof")
+	if err := verifyProofsDLEQ(proofsToSwap, tokenMint, keyset); err != nil {
+		return 0, err
 	}
 
 	// if P2PK, add signature to Witness in the proofs
@@ -611,6 +611,31 @@ func (w *Wallet) Receive(token cashu.Token, swapToTrusted bool) (uint64, error) 
 	}
 }
 
+// verifyProofsDLEQ verifies the DLEQ proofs present in the proofs, each one against
+// the public keys of the keyset the proof belongs to (which is not necessarily the
+// active keyset of the mint)
+func verifyProofsDLEQ(proofs cashu.Proofs, mintURL string, activeKeyset *crypto.WalletKeyset) error {
+	keysets := map[string]crypto.WalletKeyset{activeKeyset.Id: *activeKeyset}
+	for _, proof := range proofs {
+		if proof.DLEQ == nil {
+			continue
+		}
+		keyset, ok := keysets[proof.Id]
+		if !ok {
+			publicKeys, err := GetKeysetKeys(mintURL, proof.Id)
+			if err != nil {
+				return fmt.Errorf("could not get keys of keyset '%v': %v", proof.Id, err)
+			}
+			keyset = crypto.WalletKeyset{Id: proof.Id, MintURL: mintURL, PublicKeys: publicKeys}
+			keysets[proof.Id] = keyset
+		}
+		if !nut12.VerifyProofsDLEQ(cashu.Proofs{proof}, keyset) {
+			return errors.New("invalid DLEQ proof")
+		}
+	}
+	return nil
+}
+
 // ReceiveHTLC will add the preimage and any signatures if needed in order to redeem the
 // locked ecash. If successful, it will make a swap and store the new proofs.
 // It will add the mint in the token to the list of trusted mints.
@@ -623,8 +648,8 @@ func (w *Wallet) ReceiveHTLC(token cashu.Token, preimage string) (uint64, error)
 		return 0, fmt.Errorf("could not get active keyset: %v", err)
 	}
 	// verify DLEQ in proofs if present
-	if !nut12.VerifyProofsDLEQ(proofs, *keyset) {
-		return 0, errors.New("invalid DLEQ proof")
+	if err := verifyProofsDLEQ(proofs, tokenMint, keyset); err != nil {
+		return 0, err
 	}
 
 	w.mu.Lock()
